@@ -1,6 +1,7 @@
 package vsched
 
 import (
+	"sync"
 	"context"
 	"fmt"
 	"reflect"
@@ -261,6 +262,7 @@ func After(d time.Duration) <-chan time.Time {
 type vctx struct {
 	context.Context
 	done chan struct{}
+	mu   sync.Mutex
 	err  error
 }
 
@@ -269,6 +271,8 @@ func (c *vctx) Err() error {
 	if active != nil && stateOf(c.done).closed {
 		return context.Canceled
 	}
+	c.mu.Lock()
+	defer c.mu.Unlock()
 	return c.err
 }
 
@@ -278,6 +282,7 @@ func WithCancel(parent context.Context) (context.Context, func()) {
 	if active != nil {
 		stateOf(c.done).name = "ctx.Done"
 	}
+	var once sync.Once
 	return c, func() {
 		if active != nil {
 			s := stateOf(c.done)
@@ -286,5 +291,12 @@ func WithCancel(parent context.Context) (context.Context, func()) {
 			}
 			return
 		}
+		// free-running (race pass): an ordinary cancellable context
+		once.Do(func() {
+			c.mu.Lock()
+			c.err = context.Canceled
+			c.mu.Unlock()
+			close(c.done)
+		})
 	}
 }
